@@ -237,18 +237,20 @@ pub fn prettify(r: &mut Rng, xml: &str) -> String {
                 // and behind them
                 const DECOYS: &[&str] = &[
                     " OID=\"o-1\"", " UUID=\"u\"", " XID=\"ID_9\"", " MY-ID=\"k\"", " ID-REF-OLD=\"ID_1\"",
+                    " NO=\"7\"", " SOURCE=\"x\"",
                     " T=\"S_BOOL\"", " xsi:typo=\"t\"", " DATA-TYPE=\"A_UINT8\"", " REF=\"r\"", " D=\"\"",
+                    " IE=\"P_1\"", " ID-REG=\"q\"", " BASE-DATA-TYPO=\"A_INT8\"",
                 ];
                 let tag = &bytes[i..end];
                 let name_end = tag.iter().position(|b| *b == b' ' || *b == b'>' || *b == b'/').unwrap_or(tag.len());
                 let tail_start = if selfclose { tag.len() - 2 } else { tag.len() - 1 };
                 out.extend_from_slice(&tag[..name_end]);
                 if r.flip() {
-                    out.extend_from_slice(r.pick(&DECOYS[..5]).as_bytes());
+                    out.extend_from_slice(r.pick(&DECOYS[..7]).as_bytes());
                 }
                 out.extend_from_slice(&tag[name_end..tail_start.max(name_end)]);
                 if r.flip() {
-                    out.extend_from_slice(r.pick(&DECOYS[5..]).as_bytes());
+                    out.extend_from_slice(r.pick(&DECOYS[7..]).as_bytes());
                 }
                 out.extend_from_slice(&tag[tail_start.max(name_end)..]);
             } else {
@@ -426,9 +428,12 @@ pub fn gen_model(r: &mut Rng) -> Model {
     let mut lookups = vec![];
     for _ in 0..4 {
         let id = if !frame_ids.is_empty() && r.chance(3, 4) { *r.pick(&frame_ids) } else { r.below(100) as u32 };
-        let e = match r.below(3) {
+        let e = match r.below(5) {
             0 => None,
             1 if !exts.is_empty() => r.pick(&exts).1.clone(),
+            // an extended header is supplied, but one or both of its ids are empty: still a keyed lookup
+            2 => Some((String::new(), String::new())),
+            3 => if r.flip() { Some(("DR".to_string(), String::new())) } else { Some((String::new(), "CTX1".to_string())) },
             _ => Some(("DR".to_string(), "CTX1".to_string())),
         };
         lookups.push((id, e));
